@@ -89,6 +89,9 @@ class Module:
     def has_cls(self, name: str) -> bool:
         return name in self._classes
 
+    def has_func(self, qual: str) -> bool:
+        return qual in self._funcs
+
     def func(self, qual: str) -> ast.FunctionDef:
         try:
             return self._funcs[qual]
